@@ -8,7 +8,7 @@ if os.environ.get("VERIF_SEEDRUN"):
     # runs against a deliberately broken copy: keep the real evidence untouched
     EVID = "/tmp/vf_seed_evidence"
     REPLAY = "/tmp/vf_seed_replay"
-KNOWN = os.path.join(VERIF, "known_findings.txt")
+KNOWN = os.environ.get("VERIF_KNOWN_FILE") or os.path.join(VERIF, "known_findings.txt")
 NCPU = int(os.environ.get("VERIF_JOBS", "16"))
 
 
